@@ -231,6 +231,53 @@ def loader_facts(fn: ast.FunctionDef | None) -> dict:
 	return f
 
 
+def _body(fn):
+	"""statements of a function without its doc-string"""
+	b = list(fn.body)
+	if b and isinstance(b[0], ast.Expr) and isinstance(b[0].value, ast.Constant) and isinstance(b[0].value.value, str):
+		b = b[1:]
+	return b
+
+
+def _only_raises_typeerror(fn) -> bool:
+	b = _body(fn)
+	return (len(b) == 1 and isinstance(b[0], ast.Raise) and isinstance(b[0].exc, ast.Call) and isinstance(b[0].exc.func, ast.Name)
+	        and b[0].exc.func.id == 'TypeError')
+
+
+def session_facts(tree: ast.Module | None) -> dict:
+	"""src/gambit/db/sqla.py read structurally: what the read-only session overrides and how the default session maker is built"""
+	f = {'flushNoop': False, 'commitRaises': False, 'hookRaises': False, 'defaultReadOnly': False, 'engineDefault': False, 'noOtherOverrides': False}
+	if tree is None:
+		return f
+	ros = next((st for st in tree.body if isinstance(st, ast.ClassDef) and st.name == 'ReadOnlySession'), None)
+	if ros is not None and [ast.unparse(b) for b in ros.bases] == ['Session']:
+		meths = {m.name: m for m in ros.body if isinstance(m, ast.FunctionDef)}
+		fl, cm = meths.get('flush'), meths.get('commit')
+		f['flushNoop'] = fl is not None and all(isinstance(x, ast.Pass) for x in _body(fl)) and not fl.decorator_list
+		f['commitRaises'] = cm is not None and _only_raises_typeerror(cm) and not cm.decorator_list
+		f['noOtherOverrides'] = set(meths) <= {'flush', 'commit'} and all(isinstance(x, (ast.FunctionDef, ast.Expr)) for x in ros.body)
+	for st in tree.body:
+		if isinstance(st, ast.FunctionDef) and any(ast.unparse(d) == "event.listens_for(ReadOnlySession, 'before_commit')" for d in st.decorator_list):
+			f['hookRaises'] = _only_raises_typeerror(st)
+	fsm = next((st for st in tree.body if isinstance(st, ast.FunctionDef) and st.name == 'file_sessionmaker'), None)
+	if fsm is not None:
+		args = fsm.args
+		names = [a.arg for a in args.args]
+		defaults = dict(zip(names[len(names) - len(args.defaults):], args.defaults))
+		ro_default = isinstance(defaults.get('readonly'), ast.Constant) and defaults['readonly'].value is True
+		cls_default = isinstance(defaults.get('cls'), ast.Constant) and defaults['cls'].value is None
+		body = _body(fsm)
+		picks = (len(body) == 3 and isinstance(body[0], ast.If) and ast.unparse(body[0].test) == 'cls is None' and not body[0].orelse
+		         and [ast.unparse(x) for x in body[0].body] == ['cls = ReadOnlySession if readonly else Session'])
+		f['defaultReadOnly'] = ro_default and cls_default and picks and ast.unparse(body[2]) == 'return sessionmaker(engine, class_=cls, **kw)'
+		eng = body[1] if len(body) == 3 else None
+		f['engineDefault'] = (isinstance(eng, ast.Assign) and isinstance(eng.value, ast.Call) and ast.unparse(eng.value.func) == 'create_engine'
+		                      and len(eng.value.args) == 1 and not eng.value.keywords
+		                      and ast.unparse(eng.value.args[0]) == "f'sqlite:///{os.fspath(path)}'" and ast.unparse(eng.targets[0]) == 'engine')
+	return f
+
+
 HEADER = '''/-
 GENERATED by harness/pytrace.py from src/gambit/sigs/hdf5.py — do not edit.
 Regenerated at the start of every check; `GambitV.Tie.PyHdf5` proves the trace equal to the model's `writerTrace`.
@@ -285,6 +332,27 @@ def regenerate(repo: Path, out_dir: Path) -> dict:
 	if not p.exists() or p.read_text() != text:
 		p.write_text(text)
 	report['modules'] = {'PyHdf5': hashlib.sha1(text.encode()).hexdigest()[:12]}
+	# --- src/gambit/db/sqla.py ---------------------------------------------------------------------------------------------
+	try:
+		stree = ast.parse((repo / 'src' / 'gambit' / 'db' / 'sqla.py').read_text())
+	except (SyntaxError, OSError):
+		stree = None
+	sf = session_facts(stree)
+	stext = ('/-\nGENERATED by harness/pytrace.py from src/gambit/db/sqla.py — do not edit.\n'
+	         'Regenerated at the start of every check; `GambitV.Tie.PySession` proves the facts the session model of C18 rests on.\n-/\n'
+	         'namespace GambitV.Gen\n\n'
+	         '/-- `ReadOnlySession.flush` does nothing -/\n' + f'def pySessionFlushNoop : Bool := {b(sf["flushNoop"])}\n'
+	         '/-- `ReadOnlySession.commit` only raises `TypeError` -/\n' + f'def pySessionCommitRaises : Bool := {b(sf["commitRaises"])}\n'
+	         '/-- the `before_commit` listener registered for `ReadOnlySession` raises `TypeError` unconditionally -/\n' + f'def pySessionHookRaises : Bool := {b(sf["hookRaises"])}\n'
+	         '/-- `ReadOnlySession(Session)` overrides nothing else -/\n' + f'def pySessionNoOtherOverrides : Bool := {b(sf["noOtherOverrides"])}\n'
+	         '/-- `file_sessionmaker(path)`: `readonly=True`, `cls=None` by default, `cls = ReadOnlySession if readonly else Session` -/\n' + f'def pySessionDefaultReadOnly : Bool := {b(sf["defaultReadOnly"])}\n'
+	         '/-- … on an engine created from the file URL alone (no isolation level or other engine option) -/\n' + f'def pySessionEngineDefault : Bool := {b(sf["engineDefault"])}\n\n'
+	         'end GambitV.Gen\n')
+	sp = out_dir / 'PySession.lean'
+	if not sp.exists() or sp.read_text() != stext:
+		sp.write_text(stext)
+	report['modules']['PySession'] = hashlib.sha1(stext.encode()).hexdigest()[:12]
+	report['functions'].append('db/sqla.py (structural facts)')
 	if report['untranslatable']:
 		report['untranslatable_by_module'] = {'PyHdf5': list(report['untranslatable'])}
 	return report
